@@ -171,7 +171,7 @@ class EagerGetsliceLambda(Contract):
 class EagerCat(Contract):
     __doc__ = "eager_cat(" + __doc__.split("eager_cat(")[1]
 
-    props = ("C01", "C04")
+    props = ("C01", "C04", "C05")  # C05: the new name must not capture a free input of any part (seeded change C05_eager_cat_clash_first_part_only)
     file = "funsor/terms.py"
     qualname = "eager_cat"
     total = True
